@@ -14,7 +14,8 @@ PROP = 'C09'
 LEVEL = 'proof'
 PROPS_MODULES = ['RTV.Props.C09', 'RTV.Props.C09DateParser']
 GEN = []
-REQUIRED_THEOREMS = ['weekday_candidates', 'monthday_candidates_partial', 'monthday_candidates_fixed',
+REQUIRED_THEOREMS = ['weekday_candidates', 'weekday_candidates_total', 'bareWeekday_defined', 'monthday_candidates_partial',
+                     'monthday_guard_exact', 'generateDates_models_agree', 'monthday_candidates_fixed',
                      'monthday_fails_with_time_of_day', 'feb29_candidates_nonleap_reference',
                      'feb29_candidates_leap_reference_partial', 'feb29_fails_with_time_of_day',
                      'feb29_fails_next_to_century', 'written_day_fixed', 'written_day_prefix_partial',
